@@ -514,7 +514,8 @@ package core
 //@ pred setterFailed(core *JApiCore, c0 *catalog.Catalog, n0 int) := core.catalog == c0 && c0.gFailed > n0
 
 // the description text: trimming and un-indenting (C01: no index leaves its slice; C06: the bytes it is given are a window
-// into the project file, it must not write them - a later build of the same file would see another project)
+// into the project file, it must not write them - a later build of the same file would see another project; C10: every
+// copy PASTE makes of a macro's Description reads the same bytes; C07: the line of every later error is counted in them)
 //@ extern bytes.ReplaceAll(s, old, new)
 //@   attr pure deterministic nopanic
 //@ extern bytes.TrimLeft(s, cutset)
@@ -538,18 +539,18 @@ package core
 //@   attr pure deterministic nopanic
 //@   ensures result == hasPrefixB(s.arr, s.off, len(s), prefix.arr, prefix.off, len(prefix))
 //@ func description(b)
-//@   property C01,C06
-//@   modifies[C01,C06,@input-bytes-untouched] nothing
+//@   property C01,C06,C07,C10
+//@   modifies[C01,C06,C07,C10,@input-bytes-untouched] nothing
 //@ func descriptionRemoveParentheses(b)
-//@   property C01,C06
-//@   modifies[C01,C06,@input-bytes-untouched] nothing
+//@   property C01,C06,C07,C10
+//@   modifies[C01,C06,C07,C10,@input-bytes-untouched] nothing
 // The indentation removed from a Description is an initial segment of EVERY non-empty line (C08: re-indenting the document
 // uniformly must not leave absolute indentation in the catalog; a line that is skipped keeps its own). Three facts about
 // initial segments are axioms: a slice's own initial segments, the empty one, and an initial segment of an initial segment.
 //@ func longestWhitespacePrefix(bb)
-//@   property C01,C06,C08
+//@   property C01,C06,C07,C08,C10
 //@   requires 0 <= bb.off
-//@   modifies[C01,C06,@input-bytes-untouched] nothing
+//@   modifies[C01,C06,C07,C10,@input-bytes-untouched] nothing
 //@   axiom forallp(a, o, n, k, hasPrefixB(a, o, n, a, o, k), imp(0 <= k && k <= n, hasPrefixB(a, o, n, a, o, k)))
 //@   axiom forallp(sa, so, sn, pa, po, hasPrefixB(sa, so, sn, pa, po, 0), hasPrefixB(sa, so, sn, pa, po, 0))
 //@   axiom forallp(sa, so, sn, pa, po, pn, m, hasPrefixB(sa, so, sn, pa, po, pn), hasPrefixB(sa, so, sn, pa, po, m),
